@@ -2,7 +2,7 @@
 import os
 import shutil
 
-from .. import common, pipeline, tla
+from .. import canary, common, pipeline, tla
 from .. import d_decoration as D
 
 CFG = """SPECIFICATION Spec
@@ -43,14 +43,17 @@ def main(tier):
                 for n in sorted(gen["generated"]):
                     if n.startswith("__spec_class"):
                         continue
-                    for kind in (["function"] if n in DUNDER_FUNCTION_ONLY else D.KINDS):
-                        if not thorough and not eager and kind in ("staticmethod", "value") and name != "plain":
+                    for kind in (["function", "none"] if n in DUNDER_FUNCTION_ONLY else D.KINDS):      # (`__eq__ = None` style switches-off are plain falsy values)
+                        if not thorough and not eager and kind in ("staticmethod", "value", "zero", "empty") and name != "plain":
                             continue
                         cases.append((name, n, kind, eager))
+                    if n in d["inh_helpers"]:          # the parent has a helper of this name: an override that calls super()
+                        cases.append((name, n, "super_function", eager))
         rep.mark("mc")
         events = [e for o in pipeline.pmap(D.run_cases, common.chunks(cases, 16)) for e in o]
         rep.mark("drive")
         res = tla.judge("J_Decoration", events, chunk=1500, jobs=common.jobs())
+        pipeline.canaries(rep, "J_Decoration", events[::max(1, len(events) // 40)], canary.decoration, env=None, want=16)
         rep.mark("judge")
         for gi, clause, _ in res["bad"]:
             e = events[gi]
